@@ -929,7 +929,9 @@ impl C16 {
                                 (Some((c, _, _)), Some(p)) => !p.contains(c),
                                 _ => false,
                             };
-                            let key = if unprojected_order && q.filt.is_none() && !k.row_id && !k.row_addr && e.msg.contains("TakeExec requires the input plan") {
+                            // (also when the whole filter is answered by the scalar index: no refine step, no row id)
+                            let no_refine = q.filt.is_none() || (k.use_index && tab.idx.is_some());
+                            let key = if unprojected_order && no_refine && !k.row_id && !k.row_addr && e.msg.contains("TakeExec requires the input plan") {
                                 "order_by_unprojected_column_fails"
                             } else {
                                 "knob_changes_outcome"
